@@ -173,24 +173,27 @@ package entropy
 //@ spec vlen(b0 int, b1 int, b2 int, b3 int) = b0 < 128 ? 1 : (b1 < 128 ? 2 : (b2 < 128 ? 3 : (b3 < 128 ? 4 : 5)))
 //@ spec vdec(b0 int, b1 int, b2 int, b3 int, b4 int) = b0 < 128 ? b0 : (b1 < 128 ? b0 % 128 + 128*b1 : (b2 < 128 ? b0 % 128 + 128*(b1 % 128) + 16384*b2 : (b3 < 128 ? b0 % 128 + 128*(b1 % 128) + 16384*(b2 % 128) + 2097152*b3 : b0 % 128 + 128*(b1 % 128) + 16384*(b2 % 128) + 2097152*(b3 % 128) + 268435456*(b4 % 16))))
 
-//@ -- ReadVarInt on a tape whose next tokens are 8 bits wide: the value and the number of
-//@ -- tokens consumed are vdec/vlen of the bytes met (B0..B4 = the tokens' values mod 256).
+//@ -- ReadVarInt is total (any tape, forged streams included): 1 to 5 reads of 8 bits. On a
+//@ -- tape whose next tokens are 8 bits wide (what WriteVarInt appends) the value and the number
+//@ -- of tokens consumed are vdec/vlen of the bytes met (B0..B4 = the tokens' values mod 256).
 //@ func ReadVarInt
 //@   mode int
 //@   opt bitops cases
 //@   props C12
-//@   requires bs != nil && !bs.iclosed && bs.aligned && 0 <= bs.ipos
-//@   requires bs.ipos + vlen(bs.itapeV[bs.ipos] % 256, bs.itapeV[bs.ipos + 1] % 256, bs.itapeV[bs.ipos + 2] % 256, bs.itapeV[bs.ipos + 3] % 256) <= len(bs.itapeW)
-//@   requires forall k :: bs.ipos <= k && k < bs.ipos + vlen(bs.itapeV[bs.ipos] % 256, bs.itapeV[bs.ipos + 1] % 256, bs.itapeV[bs.ipos + 2] % 256, bs.itapeV[bs.ipos + 3] % 256) ==> bs.itapeW[k] == 8
-//@   requires forall k :: bs.ipos <= k && k < bs.ipos + 5 ==> 0 <= bs.itapeV[k]
-//@   ensures result == vdec((old(bs.itapeV[bs.ipos]) % 256), (old(bs.itapeV[bs.ipos + 1]) % 256), (old(bs.itapeV[bs.ipos + 2]) % 256), (old(bs.itapeV[bs.ipos + 3]) % 256), (old(bs.itapeV[bs.ipos + 4]) % 256))                      #value-decoded
-//@   ensures bs.ipos == old(bs.ipos) + vlen((old(bs.itapeV[bs.ipos]) % 256), (old(bs.itapeV[bs.ipos + 1]) % 256), (old(bs.itapeV[bs.ipos + 2]) % 256), (old(bs.itapeV[bs.ipos + 3]) % 256)) && bs.aligned       #tokens-consumed
-//@   ensures bs.rbitsI == old(bs.rbitsI) + 8*(bs.ipos - old(bs.ipos))                                   #bits-read
-//@   panics bs.ieof
+//@   ensures old(bs.aligned && 0 <= bs.ipos && bs.ipos + vlen(bs.itapeV[bs.ipos] % 256, bs.itapeV[bs.ipos + 1] % 256, bs.itapeV[bs.ipos + 2] % 256, bs.itapeV[bs.ipos + 3] % 256) <= len(bs.itapeW) && (forall k :: bs.ipos <= k && k < bs.ipos + vlen(bs.itapeV[bs.ipos] % 256, bs.itapeV[bs.ipos + 1] % 256, bs.itapeV[bs.ipos + 2] % 256, bs.itapeV[bs.ipos + 3] % 256) ==> bs.itapeW[k] == 8) && (forall k :: bs.ipos <= k && k < bs.ipos + 5 ==> 0 <= bs.itapeV[k])) && (old(bs.itapeV[bs.ipos]) % 256) < 128 ==> result == (old(bs.itapeV[bs.ipos]) % 256) && bs.ipos == old(bs.ipos) + 1       #case-1-bytes
+//@   ensures old(bs.aligned && 0 <= bs.ipos && bs.ipos + vlen(bs.itapeV[bs.ipos] % 256, bs.itapeV[bs.ipos + 1] % 256, bs.itapeV[bs.ipos + 2] % 256, bs.itapeV[bs.ipos + 3] % 256) <= len(bs.itapeW) && (forall k :: bs.ipos <= k && k < bs.ipos + vlen(bs.itapeV[bs.ipos] % 256, bs.itapeV[bs.ipos + 1] % 256, bs.itapeV[bs.ipos + 2] % 256, bs.itapeV[bs.ipos + 3] % 256) ==> bs.itapeW[k] == 8) && (forall k :: bs.ipos <= k && k < bs.ipos + 5 ==> 0 <= bs.itapeV[k])) && (old(bs.itapeV[bs.ipos]) % 256) >= 128 && (old(bs.itapeV[bs.ipos + 1]) % 256) < 128 ==> result == (old(bs.itapeV[bs.ipos]) % 256) % 128 + 128*(old(bs.itapeV[bs.ipos + 1]) % 256) && bs.ipos == old(bs.ipos) + 2       #case-2-bytes
+//@   ensures old(bs.aligned && 0 <= bs.ipos && bs.ipos + vlen(bs.itapeV[bs.ipos] % 256, bs.itapeV[bs.ipos + 1] % 256, bs.itapeV[bs.ipos + 2] % 256, bs.itapeV[bs.ipos + 3] % 256) <= len(bs.itapeW) && (forall k :: bs.ipos <= k && k < bs.ipos + vlen(bs.itapeV[bs.ipos] % 256, bs.itapeV[bs.ipos + 1] % 256, bs.itapeV[bs.ipos + 2] % 256, bs.itapeV[bs.ipos + 3] % 256) ==> bs.itapeW[k] == 8) && (forall k :: bs.ipos <= k && k < bs.ipos + 5 ==> 0 <= bs.itapeV[k])) && (old(bs.itapeV[bs.ipos]) % 256) >= 128 && (old(bs.itapeV[bs.ipos + 1]) % 256) >= 128 && (old(bs.itapeV[bs.ipos + 2]) % 256) < 128 ==> result == (old(bs.itapeV[bs.ipos]) % 256) % 128 + 128*((old(bs.itapeV[bs.ipos + 1]) % 256) % 128) + 16384*(old(bs.itapeV[bs.ipos + 2]) % 256) && bs.ipos == old(bs.ipos) + 3       #case-3-bytes
+//@   ensures old(bs.aligned && 0 <= bs.ipos && bs.ipos + vlen(bs.itapeV[bs.ipos] % 256, bs.itapeV[bs.ipos + 1] % 256, bs.itapeV[bs.ipos + 2] % 256, bs.itapeV[bs.ipos + 3] % 256) <= len(bs.itapeW) && (forall k :: bs.ipos <= k && k < bs.ipos + vlen(bs.itapeV[bs.ipos] % 256, bs.itapeV[bs.ipos + 1] % 256, bs.itapeV[bs.ipos + 2] % 256, bs.itapeV[bs.ipos + 3] % 256) ==> bs.itapeW[k] == 8) && (forall k :: bs.ipos <= k && k < bs.ipos + 5 ==> 0 <= bs.itapeV[k])) && (old(bs.itapeV[bs.ipos]) % 256) >= 128 && (old(bs.itapeV[bs.ipos + 1]) % 256) >= 128 && (old(bs.itapeV[bs.ipos + 2]) % 256) >= 128 && (old(bs.itapeV[bs.ipos + 3]) % 256) < 128 ==> result == (old(bs.itapeV[bs.ipos]) % 256) % 128 + 128*((old(bs.itapeV[bs.ipos + 1]) % 256) % 128) + 16384*((old(bs.itapeV[bs.ipos + 2]) % 256) % 128) + 2097152*(old(bs.itapeV[bs.ipos + 3]) % 256) && bs.ipos == old(bs.ipos) + 4       #case-4-bytes
+//@   ensures old(bs.aligned && 0 <= bs.ipos && bs.ipos + vlen(bs.itapeV[bs.ipos] % 256, bs.itapeV[bs.ipos + 1] % 256, bs.itapeV[bs.ipos + 2] % 256, bs.itapeV[bs.ipos + 3] % 256) <= len(bs.itapeW) && (forall k :: bs.ipos <= k && k < bs.ipos + vlen(bs.itapeV[bs.ipos] % 256, bs.itapeV[bs.ipos + 1] % 256, bs.itapeV[bs.ipos + 2] % 256, bs.itapeV[bs.ipos + 3] % 256) ==> bs.itapeW[k] == 8) && (forall k :: bs.ipos <= k && k < bs.ipos + 5 ==> 0 <= bs.itapeV[k])) && (old(bs.itapeV[bs.ipos]) % 256) >= 128 && (old(bs.itapeV[bs.ipos + 1]) % 256) >= 128 && (old(bs.itapeV[bs.ipos + 2]) % 256) >= 128 && (old(bs.itapeV[bs.ipos + 3]) % 256) >= 128 ==> result == (old(bs.itapeV[bs.ipos]) % 256) % 128 + 128*((old(bs.itapeV[bs.ipos + 1]) % 256) % 128) + 16384*((old(bs.itapeV[bs.ipos + 2]) % 256) % 128) + 2097152*((old(bs.itapeV[bs.ipos + 3]) % 256) % 128) + 268435456*((old(bs.itapeV[bs.ipos + 4]) % 256) % 16) && bs.ipos == old(bs.ipos) + 5       #case-5-bytes
+//@   ensures old(bs.aligned && 0 <= bs.ipos && bs.ipos + vlen(bs.itapeV[bs.ipos] % 256, bs.itapeV[bs.ipos + 1] % 256, bs.itapeV[bs.ipos + 2] % 256, bs.itapeV[bs.ipos + 3] % 256) <= len(bs.itapeW) && (forall k :: bs.ipos <= k && k < bs.ipos + vlen(bs.itapeV[bs.ipos] % 256, bs.itapeV[bs.ipos + 1] % 256, bs.itapeV[bs.ipos + 2] % 256, bs.itapeV[bs.ipos + 3] % 256) ==> bs.itapeW[k] == 8) && (forall k :: bs.ipos <= k && k < bs.ipos + 5 ==> 0 <= bs.itapeV[k])) ==> result == vdec((old(bs.itapeV[bs.ipos]) % 256), (old(bs.itapeV[bs.ipos + 1]) % 256), (old(bs.itapeV[bs.ipos + 2]) % 256), (old(bs.itapeV[bs.ipos + 3]) % 256), (old(bs.itapeV[bs.ipos + 4]) % 256))                      #value-decoded
+//@   ensures old(bs.aligned && 0 <= bs.ipos && bs.ipos + vlen(bs.itapeV[bs.ipos] % 256, bs.itapeV[bs.ipos + 1] % 256, bs.itapeV[bs.ipos + 2] % 256, bs.itapeV[bs.ipos + 3] % 256) <= len(bs.itapeW) && (forall k :: bs.ipos <= k && k < bs.ipos + vlen(bs.itapeV[bs.ipos] % 256, bs.itapeV[bs.ipos + 1] % 256, bs.itapeV[bs.ipos + 2] % 256, bs.itapeV[bs.ipos + 3] % 256) ==> bs.itapeW[k] == 8) && (forall k :: bs.ipos <= k && k < bs.ipos + 5 ==> 0 <= bs.itapeV[k])) ==> bs.ipos == old(bs.ipos) + vlen((old(bs.itapeV[bs.ipos]) % 256), (old(bs.itapeV[bs.ipos + 1]) % 256), (old(bs.itapeV[bs.ipos + 2]) % 256), (old(bs.itapeV[bs.ipos + 3]) % 256)) && bs.aligned && bs.rbitsI == old(bs.rbitsI) + 8*(bs.ipos - old(bs.ipos))       #tokens-consumed
+//@   ensures bs.rbitsI >= old(bs.rbitsI) + 8 && bs.rbitsI <= old(bs.rbitsI) + 40 && (bs.rbitsI - old(bs.rbitsI)) % 8 == 0                                   #bits-read
+//@   panics bs == nil || old(bs.iclosed) || bs.ieof
 //@   modifies bs.rbitsI, bs.ieof, bs.aligned, bs.ipos
-//@   loop 1 invariant 0 <= i && i <= 4 && shift == 7*i && bs.ipos == old(bs.ipos) + i && bs.aligned && !bs.iclosed && bs.rbitsI == old(bs.rbitsI) + 8*i
-//@   loop 1 invariant (i >= 1 ==> (old(bs.itapeV[bs.ipos]) % 256) >= 128) && (i >= 2 ==> (old(bs.itapeV[bs.ipos + 1]) % 256) >= 128) && (i >= 3 ==> (old(bs.itapeV[bs.ipos + 2]) % 256) >= 128) && (i >= 4 ==> (old(bs.itapeV[bs.ipos + 3]) % 256) >= 128)
-//@   loop 1 invariant (i == 0 ==> res == 0) && (i == 1 ==> res == (old(bs.itapeV[bs.ipos]) % 256) % 128) && (i == 2 ==> res == (old(bs.itapeV[bs.ipos]) % 256) % 128 + 128*((old(bs.itapeV[bs.ipos + 1]) % 256) % 128)) && (i == 3 ==> res == (old(bs.itapeV[bs.ipos]) % 256) % 128 + 128*((old(bs.itapeV[bs.ipos + 1]) % 256) % 128) + 16384*((old(bs.itapeV[bs.ipos + 2]) % 256) % 128)) && (i == 4 ==> res == (old(bs.itapeV[bs.ipos]) % 256) % 128 + 128*((old(bs.itapeV[bs.ipos + 1]) % 256) % 128) + 16384*((old(bs.itapeV[bs.ipos + 2]) % 256) % 128) + 2097152*((old(bs.itapeV[bs.ipos + 3]) % 256) % 128))
+//@   loop 1 invariant 0 <= i && i <= 4 && shift == 7*i && bs.iclosed == old(bs.iclosed) && bs.rbitsI == old(bs.rbitsI) + 8*i
+//@   loop 1 invariant old(bs.aligned && 0 <= bs.ipos && bs.ipos + vlen(bs.itapeV[bs.ipos] % 256, bs.itapeV[bs.ipos + 1] % 256, bs.itapeV[bs.ipos + 2] % 256, bs.itapeV[bs.ipos + 3] % 256) <= len(bs.itapeW) && (forall k :: bs.ipos <= k && k < bs.ipos + vlen(bs.itapeV[bs.ipos] % 256, bs.itapeV[bs.ipos + 1] % 256, bs.itapeV[bs.ipos + 2] % 256, bs.itapeV[bs.ipos + 3] % 256) ==> bs.itapeW[k] == 8) && (forall k :: bs.ipos <= k && k < bs.ipos + 5 ==> 0 <= bs.itapeV[k])) ==> bs.ipos == old(bs.ipos) + i && bs.aligned
+//@   loop 1 invariant old(bs.aligned && 0 <= bs.ipos && bs.ipos + vlen(bs.itapeV[bs.ipos] % 256, bs.itapeV[bs.ipos + 1] % 256, bs.itapeV[bs.ipos + 2] % 256, bs.itapeV[bs.ipos + 3] % 256) <= len(bs.itapeW) && (forall k :: bs.ipos <= k && k < bs.ipos + vlen(bs.itapeV[bs.ipos] % 256, bs.itapeV[bs.ipos + 1] % 256, bs.itapeV[bs.ipos + 2] % 256, bs.itapeV[bs.ipos + 3] % 256) ==> bs.itapeW[k] == 8) && (forall k :: bs.ipos <= k && k < bs.ipos + 5 ==> 0 <= bs.itapeV[k])) ==> (i >= 1 ==> (old(bs.itapeV[bs.ipos]) % 256) >= 128) && (i >= 2 ==> (old(bs.itapeV[bs.ipos + 1]) % 256) >= 128) && (i >= 3 ==> (old(bs.itapeV[bs.ipos + 2]) % 256) >= 128) && (i >= 4 ==> (old(bs.itapeV[bs.ipos + 3]) % 256) >= 128)
+//@   loop 1 invariant old(bs.aligned && 0 <= bs.ipos && bs.ipos + vlen(bs.itapeV[bs.ipos] % 256, bs.itapeV[bs.ipos + 1] % 256, bs.itapeV[bs.ipos + 2] % 256, bs.itapeV[bs.ipos + 3] % 256) <= len(bs.itapeW) && (forall k :: bs.ipos <= k && k < bs.ipos + vlen(bs.itapeV[bs.ipos] % 256, bs.itapeV[bs.ipos + 1] % 256, bs.itapeV[bs.ipos + 2] % 256, bs.itapeV[bs.ipos + 3] % 256) ==> bs.itapeW[k] == 8) && (forall k :: bs.ipos <= k && k < bs.ipos + 5 ==> 0 <= bs.itapeV[k])) ==> (i == 0 ==> res == 0) && (i == 1 ==> res == (old(bs.itapeV[bs.ipos]) % 256) % 128) && (i == 2 ==> res == (old(bs.itapeV[bs.ipos]) % 256) % 128 + 128*((old(bs.itapeV[bs.ipos + 1]) % 256) % 128)) && (i == 3 ==> res == (old(bs.itapeV[bs.ipos]) % 256) % 128 + 128*((old(bs.itapeV[bs.ipos + 1]) % 256) % 128) + 16384*((old(bs.itapeV[bs.ipos + 2]) % 256) % 128)) && (i == 4 ==> res == (old(bs.itapeV[bs.ipos]) % 256) % 128 + 128*((old(bs.itapeV[bs.ipos + 1]) % 256) % 128) + 16384*((old(bs.itapeV[bs.ipos + 2]) % 256) % 128) + 2097152*((old(bs.itapeV[bs.ipos + 3]) % 256) % 128))
 //@   loop 1 decreases 4 - i
 
 //@ lemma varint_roundtrip(v int)
